@@ -27,6 +27,14 @@ type FCase struct {
 	Segs          []string       `json:"path"`
 	Repl          string         `json:"replacement"` // scalar, map, list, identity, remove
 	CreateParents bool           `json:"create_parents"`
+	// IntForm: segments that are canonical decimal numerals are given as integer-form segments
+	// (PathSegmentOfInt), as a path replayed from a walk over a list has them
+	IntForm bool `json:"int_form_segments,omitempty"`
+}
+
+func canonicalNumeral(s string) bool {
+	n, err := strconv.Atoi(s)
+	return err == nil && n >= 0 && strconv.Itoa(n) == s
 }
 
 func replVal(r string) ref.Val {
@@ -340,6 +348,11 @@ func CheckFocused(b *trav.Built, c FCase) (fs []core.Finding, outcome string) {
 	}
 	var ps []datamodel.PathSegment
 	for _, s := range c.Segs {
+		if c.IntForm && canonicalNumeral(s) {
+			n, _ := strconv.Atoi(s)
+			ps = append(ps, datamodel.PathSegmentOfInt(int64(n)))
+			continue
+		}
 		ps = append(ps, datamodel.PathSegmentOfString(s))
 	}
 	var res datamodel.Node
@@ -452,6 +465,63 @@ func paths(maxLen int) [][]string {
 	return out
 }
 
+func hasNumeral(p []string) bool {
+	for _, s := range p {
+		if canonicalNumeral(s) {
+			return true
+		}
+	}
+	return false
+}
+
+// numeralTwins: maps whose keys are different strings but equal as numerals (1 | 01 | +1 | 001): every
+// path of ≤2 segments over those spellings and two absent ones, in string form and in integer form,
+// with every replacement — a segment names a map entry by its string.
+func numeralTwins(r *core.Run) {
+	leaf := ref.Int(7)
+	inner := ref.Map(ref.E("01", leaf), ref.E("1", ref.List(leaf)), ref.E("+1", leaf), ref.E("001", leaf))
+	missing1 := ref.Map(ref.E("01", leaf), ref.E("+1", ref.List(leaf)), ref.E("02", leaf))
+	gs := []trav.GraphSpec{{Tree: inner}, {Tree: missing1}, {Tree: ref.Map(ref.E("1", inner), ref.E("01", missing1))},
+		{Tree: ref.Map(ref.E("1", inner), ref.E("01", missing1)), Cuts: []int{1, 7}}, {Tree: ref.Map(ref.E("a", missing1)), Cuts: []int{1}}}
+	segs := []string{"1", "01", "+1", "001", "2", "02", "a"}
+	var ps [][]string
+	for _, a := range segs {
+		ps = append(ps, []string{a})
+		for _, b := range segs {
+			ps = append(ps, []string{a, b})
+		}
+	}
+	core.ParallelFor(len(gs), func(gi int) {
+		b := trav.Build(gs[gi])
+		var lc core.LocalCounters
+		var nt int64
+		for _, p := range ps {
+			for _, repl := range Repls {
+				for _, cp := range []bool{false, true} {
+					for _, intForm := range []bool{false, true} {
+						if intForm && !hasNumeral(p) {
+							continue
+						}
+						c := FCase{Graph: gs[gi], Segs: p, Repl: repl, CreateParents: cp, IntForm: intForm}
+						fs, outcome := CheckFocused(b, c)
+						lc.Transitions++
+						lc.Traces++
+						lc.Evals++
+						if strings.HasPrefix(outcome, "ok:") && !strings.HasPrefix(outcome, "ok:error") {
+							nt++
+						}
+						r.Report("focused", c, fs)
+					}
+				}
+			}
+		}
+		lc.States = int64(len(ps))
+		r.Merge(&lc)
+		r.NontrivialN(nt)
+	})
+	r.Outcome("numeral-twin-keys")
+}
+
 var Repls = []string{"scalar", "map", "list", "identity", "remove"}
 
 func Main(r *core.Run) {
@@ -477,16 +547,21 @@ func Main(r *core.Run) {
 						// the root's own prototype decides what is acceptable there: same-kind replacements only
 						continue
 					}
-					c := FCase{Graph: gs[gi], Segs: p, Repl: repl, CreateParents: cp}
-					fs, outcome := CheckFocused(b, c)
-					lc.Transitions++
-					lc.Traces++
-					lc.Evals++
-					oc[outcome]++
-					if strings.HasPrefix(outcome, "ok:") && !strings.HasPrefix(outcome, "ok:error") {
-						nt++
+					for _, intForm := range []bool{false, true} {
+						if intForm && !hasNumeral(p) {
+							continue
+						}
+						c := FCase{Graph: gs[gi], Segs: p, Repl: repl, CreateParents: cp, IntForm: intForm}
+						fs, outcome := CheckFocused(b, c)
+						lc.Transitions++
+						lc.Traces++
+						lc.Evals++
+						oc[outcome]++
+						if strings.HasPrefix(outcome, "ok:") && !strings.HasPrefix(outcome, "ok:error") {
+							nt++
+						}
+						r.Report("focused", c, fs)
 					}
-					r.Report("focused", c, fs)
 				}
 			}
 		}
@@ -499,6 +574,7 @@ func Main(r *core.Run) {
 			r.OutcomeN(k, v)
 		}
 	})
+	numeralTwins(r)
 	typedTransforms(r, quick)
 	r.Sample(FCase{Graph: gs[len(gs)/2], Segs: []string{"0", "-"}, Repl: "map", CreateParents: true})
 	r.Sample(FCase{Graph: gs[len(gs)-5], Segs: []string{"a"}, Repl: "remove"})
